@@ -65,6 +65,65 @@ def c03(case):
     return fails
 
 
+def c02_long(case):
+    """Long runs (tens of thousands of iterations): at every iteration the subdivided interval must have maximal characteristic among
+    ALL intervals of the partition, recomputed here in binary64 (numpy) from the trial log and the method's current M and z*.
+    The selection is observed by wrapping Method.CalculateIterationPoint in this process (no change to the repository)."""
+    import numpy as np
+    from iOpt.method.method import Method
+    fails, stats = [], {'steps': 0, 'max_intervals': 0}
+    p, s = build(case)
+    n, r = case['n'], float(case['r'])
+    sel = []
+    orig = Method.CalculateIterationPoint
+
+    def wrapped(self):
+        new, old = orig(self)
+        sel.append((old.GetLeft().GetX(), old.GetX(), new.GetX(), float(self.M[0]), float(self.Z[0])))
+        return new, old
+    Method.CalculateIterationPoint = wrapped
+    try:
+        with H.quiet():
+            s.DoGlobalIteration(1)
+            it0 = [q for q in H.items(s)]
+            xs = np.array([q.GetX() for q in it0], dtype=float)
+            zs = np.array([q.GetZ() for q in it0], dtype=float)
+            ev = np.array([q.GetIndex() == 0 for q in it0], dtype=bool)
+            for it in range(case['iters'] - 1):
+                nlog = len(p.log)
+                try:
+                    s.DoGlobalIteration(1)
+                except Exception as e:  # noqa
+                    stats['guard'] = str(e); break
+                if len(p.log) != nlog + 1 or not sel:
+                    break
+                xl, xr, xn, M, Z = sel.pop()
+                sel.clear()
+                D = (xs[1:] - xs[:-1]) ** (1.0 / n)
+                zl, zr, el, er = zs[:-1], zs[1:], ev[:-1], ev[1:]
+                with np.errstate(all='ignore'):
+                    Rin = D + (zr - zl) ** 2 / (r * r * M * M * D) - 2 * (zr + zl - 2 * Z) / (r * M)
+                    Rl = 2 * D - 4 * (zr - Z) / (r * M)
+                    Rr = 2 * D - 4 * (zl - Z) / (r * M)
+                R = np.where(el & er, Rin, np.where(er, Rl, Rr))
+                k = int(np.searchsorted(xs, xr)) - 1
+                if not (0 <= k < len(R)) or xs[k] != xl or xs[k + 1] != xr:
+                    fails.append('iteration %d: the subdivided interval (%r, %r) is not an interval of the partition' % (it + 2, xl, xr)); break
+                mx = float(R.max())
+                if R[k] < mx - (abs(mx) * 1e-9 + 1e-12):
+                    j = int(R.argmax())
+                    fails.append('iteration %d of a long run (%d intervals): subdivided (%.12g, %.12g) with characteristic %.12g although (%.12g, %.12g) has %.12g (M=%r z*=%r)'
+                                 % (it + 2, len(R), xl, xr, R[k], xs[j], xs[j + 1], mx, M, Z)); break
+                if not (xl < xn < xr):
+                    fails.append('iteration %d: new point %r not strictly inside (%r, %r)' % (it + 2, xn, xl, xr)); break
+                xs = np.insert(xs, k + 1, xn); zs = np.insert(zs, k + 1, p.log[-1][1]); ev = np.insert(ev, k + 1, True)
+                stats['steps'] += 1
+            stats['max_intervals'] = int(len(xs) - 1)
+    finally:
+        Method.CalculateIterationPoint = orig
+    return fails, stats
+
+
 def guarded(fn, case):
     """an oracle that raises is a failure of the property's observable contract, not of the check"""
     try:
